@@ -99,13 +99,22 @@ def ob_sha2(impl, use_512, plen, slen, rounds):
         triples = [(M, "h64_engine", rec), (B, "bytes", bytes_), (LB, "bytes", bytes_)]
         if hasattr(M, "bytes"):
             triples.append((M, "bytes", bytes_))
+    from vlib import sbytes as _sb
+    del _sb.DIGEST_CALLS[:]
     with patched(*triples):
         paths = explore(run)
     if len(paths) != 1 or paths[0].exc is not None:
         return _viol(impl, alg, plen, slen, rounds, "raises %r / %d paths" % (paths[0].exc, len(paths)), None, pwd, salt)
     out = paths[0].result
+    impl_calls = sorted(map(str, _sb.DIGEST_CALLS))
+    del _sb.DIGEST_CALLS[:]
     H = lambda data=b"": SHash(alg, data)  # noqa
     ref = CR.sha2_crypt(H, pwd, salt.encode("ascii"), rounds)
+    ref_calls = sorted(map(str, _sb.DIGEST_CALLS))
+    if impl_calls != ref_calls:
+        # structural pre-check: the two computations do not even hash inputs of the same sizes (candidate; replay decides)
+        return _viol(impl, alg, plen, slen, rounds, "digest inputs differ in number/size from Drepper's SHA-crypt specification "
+                     "(%d vs %d digest calls)" % (len(impl_calls), len(ref_calls)), None, pwd, salt)
     dc = rec.dc
     if dc is None or len(dc) != len(ref):
         return _viol(impl, alg, plen, slen, rounds, "digest handed to the encoder has the wrong size", None, pwd, salt)
@@ -279,6 +288,11 @@ def obligations(tier):
             sl = slens.get(l, 8)
             obs.append(Ob("sha%s-crypt[len=%d,rounds=%d]" % ("512" if use_512 else "256", l, r), ob_sha2,
                           {"impl": "passlib", "use_512": use_512, "plen": l, "slen": sl, "rounds": r}, timeout=1800))
+    # libpass ships its own copy of the routine (C20 checks it on the same grid; listed here as the format is the same)
+    for use_512 in (False, True):
+        for (l, r) in [(l, r) for l in (0, 1, 16, 33, 64, 95, 96, 97, 129) for r in (1000, 5000)] + [(3, 1008 + t) for t in range(0, 42, 5)]:
+            obs.append(Ob("libpass-sha%s-crypt[len=%d,rounds=%d]" % ("512" if use_512 else "256", l, r), ob_sha2,
+                          {"impl": "libpass", "use_512": use_512, "plen": l, "slen": 16 if l % 2 else 8, "rounds": r}, timeout=1800))
     for use_apr in (False, True):
         for l in (lens if tier != "quick" else QUICK_LENS):
             for sl in ((0, 8) if l in (0, 16) else (slens.get(l, 8) % 9,)):
@@ -299,7 +313,7 @@ def run(tier, seed, t0, only=None):
     results = runner.run_obligations(obs)
     return runner.finish(
         PROP, tier, seed, "translation_validation", results, t0=t0,
-        functions=["passlib.handlers.sha2_crypt._raw_sha2_crypt", "passlib.handlers.md5_crypt._raw_md5_crypt",
+        functions=["passlib.handlers.sha2_crypt._raw_sha2_crypt", "libpass.hashers.sha_crypt._sha_crypt", "passlib.handlers.md5_crypt._raw_md5_crypt",
                    "passlib.handlers.sha1_crypt.sha1_crypt._calc_checksum_builtin", "Base64Engine.encode_transposed_bytes + offset maps"],
         bounds="sha256/sha512-crypt: password lengths %s x rounds %s (all byte contents except NUL, all salt characters); "
                "md5/apr1-crypt: same lengths, salt 0..8; sha1-crypt: rounds 1,2,3,20(,1000)" %
